@@ -601,7 +601,8 @@ Step(t) == /\ Live(t)
            /\ Do(t, Code(t)[pc[t]], Tick(t))
            /\ UNCHANGED <<pid, out>>
 
-\* explicit enabledness of the next instruction of t (guards of the blocking operations)
+\* Guaranteed enabledness of the next instruction of t (guards of the blocking operations).
+\* Used for deadlock classification only; Step(t) itself decides what can happen.
 CanStep(t) ==
   /\ Live(t)
   /\ LET ins == Code(t)[pc[t]] IN
@@ -612,7 +613,8 @@ CanStep(t) ==
        [] ins.op = "write"  -> CanWrite(ins.o)
        [] ins.op = "cvwait" -> \/ sub[t] = ""
                                \/ sub[t] = "cvwoken" /\ ob.mtx[ins.o2].owner = NoThread
-       [] ins.op = "nwait"  -> CanNWait(ins.o)
+       [] ins.op = "nwait"  -> ob.ntf[ins.o].flag     \* a spurious return is possible but never guaranteed:
+                                                      \* a state that needs one to make progress is a deadlock
        [] ins.op = "recv"   -> ob.ch[ins.o].q # <<>>
        [] ins.op = "await"  -> AwaitReadable(Tick(t), ins.o) # {}
        [] OTHER -> TRUE
